@@ -76,6 +76,8 @@ STATEMENT_STATUS: Dict[str, str] = {
         "LZW, RunLength, PNG, TIFF and ASCIIHex models equals the definition regenerated from lzw.py / runlength.py / utils.py / ascii85.py; "
         "the three regex sources of ascii85.py are the patterns the hand model implements "
         "(nbitsAfter, pngNbytes, pngBpp are used by the model directly)",
+    "predictor_translated": "proved: the model's predictor dispatch = the translated `pred == 1 / == 2 / >= 10 / else` chain of "
+        "PDFStream._decode with the translated Colors / Columns / BitsPerComponent defaults",
     "stream_read_exact": "proved: whole stream branch (streamRead), Length = |payload|: rawdata = payload (any bytes) and the "
         "parser resumes exactly at `endstream`, any marker-free bytes in between",
     "stream_fallback_delim": "proved: fallback mode (Length ignored, any value): rawdata = bytes up to the first `endstream`, "
